@@ -165,6 +165,7 @@ theorem nexecute_false_exited (hC : NoCmds sc) (scope : Scope) (x : Ctx) (tr : T
     obtain ⟨_, s3, _, h⟩ := bind_eq_ok h
     obtain ⟨_, s4, _, h⟩ := bind_eq_ok h
     obtain ⟨_, s5, _, h⟩ := bind_eq_ok h
+    obtain ⟨_, s5', _, h⟩ := bind_eq_ok h
     obtain ⟨_, s6, _, h⟩ := bind_eq_ok h
     obtain ⟨_, s7, _, h⟩ := bind_eq_ok h
     simp at h
@@ -234,6 +235,12 @@ theorem execStep_pres2 (hcl : Closed2 cfg sub sc R) (scope : Scope) (x : Ctx) (t
     exact this
 
 
+theorem nfinalStage_pres2 (hC : NoCmds sc) (hcl : Closed2 cfg sub sc R) (scope : Scope) (x : Ctx) (dest : Option SPath)
+    (conf0 : Forest) (s : NSt) : PresV R (nfinalStage sub sc cfg scope x dest conf0 s) s.view := by
+  intro s' h
+  rw [nfinalStage_view sub sc cfg hC scope x dest conf0 s s' h]
+  exact hcl.refl _
+
 theorem nexecute_pres2 (hC : NoCmds sc) (hcl : Closed2 cfg sub sc R) (scope : Scope) (x : Ctx) (tr : TRef) (t : NTrans)
     (s : NSt) (hw : cfg.root.walkTo scope.pre = some scope) (hm : (tr, t) ∈ allTrans cfg)
     (hsc : tr.scope = scope.pre) (hx : (scope.pre ++ t.source) ∉ s.exited) :
@@ -271,6 +278,8 @@ theorem nexecute_pres2 (hC : NoCmds sc) (hcl : Closed2 cfg sub sc R) (scope : Sc
     have hstep := execStep_pres2 hcl scope x tr t t.dest s4 s3.glog hw hm hsc rfl hx4 hg
     rw [hconf] at hstep
     refine PresV.bind hstep ?_
+    intro _ s5 _ f5
+    refine weaken2 hcl f5 (PresV.bind (nfinalStage_pres2 hC hcl scope x _ _ s5) ?_)
     intro _ s5 _ f5
     refine weaken2 hcl f5 (PresV.bind (ncallbacks_pres2 hC hcl _ x _ s5) ?_)
     intro _ s6 _ f6
